@@ -160,11 +160,14 @@ func Check(cfg *Config) int {
 	defer os.RemoveAll(filepath.Join(cfg.Verif, ".cache", "native", cfg.Property+"-"+fmt.Sprint(os.Getpid())))
 	replayDir := filepath.Join(cfg.Verif, "replay", cfg.Property)
 	var violationLines []string
+	knownConfirmed := map[string]bool{}
+	knownTried := map[string]int{}
+	knownUnconf := map[string]string{}
 	if !cfg.NoReplay {
 		var nwg sync.WaitGroup
 		var mu sync.Mutex
 		for _, r := range results {
-			if len(r.Violations) == 0 && len(r.witnesses) == 0 && len(r.observes) == 0 {
+			if len(r.Violations) == 0 && len(r.witnesses) == 0 && len(r.observes) == 0 && len(r.KnownCex) == 0 {
 				continue
 			}
 			nwg.Add(1)
@@ -208,6 +211,27 @@ func Check(cfg *Config) int {
 						v.Ob.Detail = "unconfirmed counterexample (native run: " + o.Result + " " + o.Label + ")"
 						r.Unconfirmed++
 					}
+				}
+				// models attributed to recorded findings: replayed with no finding treated as known; the
+				// KNOWN-FINDING line is printed only for findings that still fail natively
+				for i, kc := range r.KnownCex {
+					mu.Lock()
+					done := knownConfirmed[kc.ID] || knownTried[kc.ID] >= 3
+					knownTried[kc.ID]++
+					mu.Unlock()
+					if done {
+						continue
+					}
+					rf := filepath.Join(tmp, fmt.Sprintf("%s.known%d.json", r.ID, i))
+					writeReplay(rf, r.ID, kc.Inputs, map[string]bool{}, cfg.Tier, nil)
+					o := nr.run(bin, r.ID, rf)
+					mu.Lock()
+					if reproduces(&Obligation{Kind: kc.Kind, Label: kc.Label}, o) {
+						knownConfirmed[kc.ID] = true
+					} else {
+						knownUnconf[kc.ID] = fmt.Sprintf("%s: %s %s at %s: native run: %s %s", r.ID, kc.Kind, kc.Label, kc.Pos, o.Result, firstN(o.Label, 200))
+					}
+					mu.Unlock()
 				}
 				for i, w := range r.witnesses {
 					if i >= 8 {
@@ -348,6 +372,19 @@ func Check(cfg *Config) int {
 			}
 		}
 	}
+	if !cfg.NoReplay {
+		for id := range knownSeen {
+			if strings.HasPrefix(id, "gone:") || knownConfirmed[id] {
+				continue
+			}
+			inconclusive++
+			why := knownUnconf[id]
+			if why == "" {
+				why = "no model available for native replay"
+			}
+			incon = append(incon, map[string]interface{}{"kind": "known-finding-unconfirmed", "id": id, "why": "solver model attributed to this recorded finding did not reproduce natively: " + why})
+		}
+	}
 	if len(samples) == 0 {
 		samples = append(samples, "no obligation was generated")
 	}
@@ -394,6 +431,9 @@ func Check(cfg *Config) int {
 	for id, what := range knownSeen {
 		if strings.HasPrefix(id, "gone:") {
 			continue
+		}
+		if !cfg.NoReplay && !knownConfirmed[id] {
+			continue // reported as inconclusive above (model did not reproduce natively)
 		}
 		kf := knownAll[id]
 		fmt.Printf("KNOWN-FINDING: property=%s %s %s [%s]\n", cfg.Property, id, kf.What, what)
